@@ -33,7 +33,10 @@ SRC_MARK = '@C07SRC@'      # replaced by the absolute source directory when writ
 INCMODES = ['hdrdir', 'str', 'optobj', 'optraw', 'global']
 # characters a header name may contain here ('/', '\\', '"', NUL and newline cannot
 # appear in a portable #include "..." and are never generated)
-SPECIALS = list(' $#%&()*?[]:,@!+~{};=|<>^`\'-')
+# white space that is not ASCII space/tab/newline (str.isspace() is true for all of them);
+# compilers write them into depfiles as they are and make/ninja read the name as one word
+WS_SPECIALS = ['\u00a0', '\u3000', '\u2003', '\u2028', '\u0085', '\x0b', '\x0c', '\x1f']
+SPECIALS = list(' $#%&()*?[]:,@!+~{};=|<>^`\'-') + WS_SPECIALS
 SPECIALS_COMMON = list(' $#%&()+,@~=')      # drawn more often
 SPECIAL_INCDIRS = ['include dir', 'h$dr', 'i#n', 'p%c', 'a+b', 'x@y', 'in(c)', 'q&r']
 
@@ -447,7 +450,8 @@ def gen_name(rng, stem, p_special):
         if rng.random() < 0.15:
             return 'sub/' + plain, 'sub/' + plain
         return plain, plain
-    pool = SPECIALS_COMMON if rng.random() < 0.6 else SPECIALS
+    r = rng.random()
+    pool = SPECIALS_COMMON if r < 0.55 else WS_SPECIALS if r < 0.7 else SPECIALS
     c = rng.choice(pool)
     d = rng.choice(pool)
     shape = rng.choice(['%(s)s%(c)sx.h', '%(s)s%(c)sx.h', '%(c)s%(s)s.h', '%(s)s%(c)s.h',
@@ -478,7 +482,15 @@ def repeated_names(stem, c):
     return '%s%s%sm.h' % (stem, c, c), '%s%sm%sk.h' % (stem, c, c)
 
 
-def directed_repeat(lang, chars, incmode='hdrdir'):
+def odd_space_names(stem, c):
+    """(in the file name, in a header sub-directory) names holding the character once."""
+    return '%s%sm.h' % (stem, c), 'su%sb/%s.h' % (c, stem)
+
+
+WS_QUICK = ['\u00a0\u3000', '\u2003\u2028', '\u0085\x0b', '\x0c\x1f']
+
+
+def directed_repeat(lang, chars, incmode='hdrdir', names=repeated_names):
     """A two-TU project whose headers carry each character of `chars` twice (adjacent in one
     header, separated in another), and a history that makes each of them vanish: renamed
     (to another name of the same kind, includers updated) and later deleted in one step.
@@ -489,7 +501,7 @@ def directed_repeat(lang, chars, incmode='hdrdir'):
     for c in chars:
         for form in (0, 1):
             n += 1
-            H[str(n)] = {'name': repeated_names('h%d' % n, c)[form], 'plain': 'h%d.h' % n,
+            H[str(n)] = {'name': names('h%d' % n, c)[form], 'plain': 'h%d.h' % n,
                          'dir': 0, 'base': 10 + n, 'inc': []}
     hub = str(n + 1)
     H[hub] = {'name': 'hub.h', 'plain': 'hub.h', 'dir': 0, 'base': 7,
@@ -504,7 +516,7 @@ def directed_repeat(lang, chars, incmode='hdrdir'):
     for c in chars:
         for form in (0, 1):
             k += 1
-            new = repeated_names('h%dr' % k, c)[form]
+            new = names('h%dr' % k, c)[form]
             hist.append({'op': 'rename_header', 'h': str(k), 'name': new,
                          'plain': 'h%dr.h' % k})
     hist.append({'op': 'noop'})
@@ -522,9 +534,9 @@ def directed_repeat(lang, chars, incmode='hdrdir'):
 # cannot build them: C04's findings) and the comma (it splits the arguments of the
 # $(call RULE_..._LINK,...) in the link recipe - same C04 finding, with a real linker even
 # a lone comma fails)
-OBJ_CHARS_QUICK = [' ', '#', '+', '@', '=', '$']
+OBJ_CHARS_QUICK = [' ', '#', '+', '@', '=', '$', '\u00a0', '\u3000']
 OBJ_CHARS_ALL = [' ', '#', '+', '@', '=', '$', '&', '!', '{', '}', '~', '^', '<', '>',
-                 ';', '|', '`']
+                 ';', '|', '`'] + WS_SPECIALS
 
 
 def directed_objpath(lang, c, incmode='hdrdir'):
